@@ -1,7 +1,7 @@
 """Per-property orchestration: which specification universe TLC enumerates (P1), which drivers replay it
 into the implementation and which independent cases are added (P2), and which clauses of the trace
 specification belong to the property (P3/P4)."""
-import json, os, time
+import copy, json, os, time
 from . import core, drivers, gen, tlc
 from .core import Machinery
 
@@ -370,6 +370,15 @@ def run_c07(ctx):
     for r_ in (_R("AtLeast", t2, a_, b_, v=-1, s=1, id="N"), _R("All", a_, _R("Any", b_, t2, id="B"), id="A"), _R("AtLeast", a_, t2, v=0, s=-1, id="M"),
                _R("Xor", a_, b_, t2), _R("Imply", _R("AtLeast", t2, v=-1, s=1), a_)):
         cases.append({"recipe": r_, "src": "handmade", "max_ids": 2, "n_dicts": 10})
+    # magnitudes beyond the default integer range, in the assumption and in the later interpretation
+    X, Y, W, Z_ = LEAF("x", 0, 60000), LEAF("y", 0, 100), LEAF("w", -50000, 0), LEAF("z", -40000, 40000)
+    wide = [(_R("AtLeast", X, Y, v=50000, s=1, id="A"), [{"x": 60000}, {"x": [40000, 60000]}, {"y": 100}, {"x": 32768, "y": 0}]),
+            (_R("AtLeast", W, v=40000, s=-1, id="A"), [{"w": -50000}, {"w": [-50000, -32769]}]),
+            (_R("All", _R("AtLeast", X, Z_, v=70000, s=1, id="B"), _R("AtMost", Z_, v=-32769, id="C"), a_, id="A"), [{"x": 60000}, {"z": -40000}, {"z": 33000, "x": 40000}, {"B": 1}]),
+            (_R("Imply", _R("AtLeast", Z_, v=32768, s=1, id="B"), _R("AtLeast", W, Y, v=-32768, s=1, id="C"), id="A"), [{"z": 32768}, {"w": -32769}, {"z": [32767, 32769]}])]
+    for r_, ds in wide:
+        cases.append({"recipe": r_, "src": "handmade", "dicts": ds})
+    ctx.region("assumptions_beyond_the_default_range", len(wide))
     ctx.pmap(drivers.drv_assume, _stamp(cases, "drv_assume"))
     if not q: repo_test_events(ctx, ['assume'])
     ctx.validate()
@@ -465,6 +474,14 @@ def run_c10(ctx):
     cases += spec_cases(ctx, r)
     cases += [{"recipe": x, "src": "handmade"} for x in adversarial_handmade()]
     cases += random_cases(ctx, 400 if q else 5000, ["shared_sub", "depth>=3", "kids>=4", "explicit_id", "generated_id"], max_box=1 << 20)
+    # copies of one named sub-proposition whose children are spelled differently (bare ids / variable objects, mixed within a node)
+    a_, b_, c_, d_ = LEAF("a"), LEAF("b"), LEAF("c"), LEAF("d")
+    for G in (_R("Any", a_, b_, id="G"), _R("All", a_, b_, c_, id="G"), _R("AtLeast", b_, c_, v=1, s=1, id="G"), _R("Xor", a_, b_, id="G"), _R("Any", a_, LEAF("t", -1, 2), b_, id="G")):
+        for top in (_R("All", _R("Any", G, c_, id="P"), _R("Any", G, d_, id="Q"), id="T"), _R("Any", _R("All", G, d_, id="P"), G, id="T"), _R("Imply", _R("All", G, c_), _R("Any", G, d_), id="T")):
+            cases.append({"recipe": copy.deepcopy(top), "src": "handmade", "style": 4})
+    for k, c in enumerate(cases):
+        if k % 3 == 2 and "style" not in c: c["style"] = 4
+    ctx.region("copies_with_mixed_spellings")
     ctx.pmap(drivers.drv_errors, _stamp(cases, "drv_errors"))
     if not q: repo_test_events(ctx, ['errors'])
     ctx.validate()
